@@ -57,6 +57,8 @@ extern crate windows;
 pub mod ipc;
 pub mod platform;
 pub mod router;
+#[cfg(feature = "verif-hooks")]
+mod verif_mutex;
 
 #[cfg(test)]
 mod test;
